@@ -6099,7 +6099,7 @@ class SSHServerConnection(SSHConnection):
             self.logger.debug1('Invalid host-based auth signature')
             return False
 
-        result = self._owner.validate_host_based_user(username, client_host,
+        result = self._owner.validate_host_based_user(username, resolved_host,
                                                       client_username)
 
         if inspect.isawaitable(result):
